@@ -70,7 +70,14 @@ class LightOblig:
     def __init__(self, o):
         self.id, self.kind, self.props, self.status, self.time, self.backend = o.id, o.kind, o.props, o.status, o.time, o.backend
         self.detail = str(o.detail)[:500] if o.detail is not None else None
-        self.meta = {k: v for k, v in o.meta.items() if isinstance(v, (str, int, float, bool, tuple, list)) or v is None}
+        import json
+        self.meta = {}
+        for k, v in o.meta.items():
+            try:
+                json.dumps(v)
+                self.meta[k] = v
+            except (TypeError, ValueError):
+                pass
         self.hyps, self.goal = [], None
 
 
